@@ -37,6 +37,11 @@ func twinAlphabet() []twinSym {
 		{"SR", env("conn8", `{"type":"command","ns":"shop.orders","command":{"aggregate":"orders","pipeline":[{"$search":{"index":"default","text":{"query":"q7Z~sr~kX","path":"bio"}}},{"$limit":3}],"cursor":{},"$db":"shop"},"durationMillis":16}`), []string{"q7Z~sr~kX"}},
 		{"F1", env("conn9", `{"type":"command","ns":"shop.orders","command":{"find":"orders","filter":{"a":"q7Z~f1~kX"},"limit":5,"skip":1,`+lsid+`,"$db":"shop"},"planSummary":"IXSCAN { a: 1 }","durationMillis":17}`), []string{"q7Z~f1~kX"}},
 		{"F2", env("conn9", `{"type":"command","ns":"shop.orders","command":{"find":"orders","filter":{"a":{"$gt":"q7Z~f2~kX"},"b":"q7Z~f2b~kX"},"limit":7,`+lsid+`,"$db":"shop"},"planSummary":"IXSCAN { a: 1, b: 1 }","durationMillis":18}`), []string{"q7Z~f2~kX", "q7Z~f2b~kX"}},
+		// the members of the line in another order (attr first, component and message last): the same document
+		{"RO", `{"attr":{"durationMillis":21,"command":{"$db":"shop","limit":2,"filter":{"a":"q7Z~ro1~kX","n":{"$lt":"q7Z~ro2~kX"}},"find":"orders"},"ns":"shop.orders","type":"command"},"msg":"Slow query","ctx":"conn9","id":51803,"c":"COMMAND","s":"I","t":{"$date":"2024-05-01T10:00:00.123+00:00"}}`, []string{"q7Z~ro1~kX", "q7Z~ro2~kX"}},
+		// literals that are hostile to anything that frames lines or tracks strings by hand: ending in a backslash, holding
+		// quotes, brackets, an escaped line break
+		{"BS", env("conn9", `{"type":"command","ns":"shop.orders","command":{"find":"orders","filter":{"p":"C:\\data\\q7Z~bs1~kX\\","q":"q7Z~bs2~kX {\"x\": [","r":"line1\nline2 q7Z~bs3~kX\\"},`+lsid+`,"$db":"shop"},"durationMillis":20}`), []string{"q7Z~bs1~kX", "q7Z~bs2~kX", "q7Z~bs3~kX"}},
 		{"UP", env("conn9", `{"type":"command","ns":"shop.orders","command":{"update":"orders","updates":[{"q":{"a":"q7Z~up1~kX"},"u":{"$set":{"range":{"step":"q7Z~up2~kX"}}},"multi":false}],"ordered":true,`+lsid+`,"$db":"shop"},"durationMillis":19}`), []string{"q7Z~up1~kX", "q7Z~up2~kX"}},
 	}
 }
@@ -292,4 +297,4 @@ func badLineHistories(c *Ctx, prop string) {
 
 const badHistRule = "; bad-line histories: for each of 19 damage classes (cut after a value / element / colon / comma, inside a string / key, wrong closer, extra closer, trailing text, text, scalars and arrays at top level, unclosed nests, invalid escape / UTF-8, wrong-typed wrapper, very deep line) a stream of 320 (thorough 3 000) pairs (damaged line, intact line - shallow, 40 objects deep, another component, 60 arrays deep) through the real stream code, expected output from fresh processes"
 
-const twinRule = "; twin lines: every sequence of 1..3 (thorough 4) lines over 9 lines that share namespace, cursor id, connection, session or use an operator's argument words as user field names (getMore twins with different originating commands, $densify / $search / $lookup next to user data spelled range.step / index / path / from / as, find twins, an update) through the real stream code in one process"
+const twinRule = "; twin lines: every sequence of 1..3 (thorough 4) lines over 11 lines that share namespace, cursor id, connection, session or use an operator's argument words as user field names (getMore twins with different originating commands, $densify / $search / $lookup next to user data spelled range.step / index / path / from / as, find twins, an update, a line with its members in another order, a line whose literals end in a backslash and hold quotes / brackets) through the real stream code in one process"
